@@ -6,6 +6,16 @@ from .. import core
 PID = 'C06'
 DRV = 'drv_c06'
 
+REGISTRY = {
+    'id': 'C06',
+    'text': 'Lean theorems: the enzymatic span builder equals the set specification for every n, site list, missed-cleavage bound and '
+            'length bounds (mem_buildEnzymatic); the hand-written model of spans.py/digest is tied to /repo by exhaustive correspondence '
+            '(n<=5 quick, n<=7 thorough) and the implementation is compared with the Lean set specification through the driver',
+    'note': 'trusted: Lean kernel, axioms propext/Classical.choice/Quot.sound, the correspondence harness, regex->sites (outside the '
+            'model, compared with an independent reading of each named rule)',
+    'technique': 'Lean 4 proof about executable model + differential correspondence',
+}
+
 
 def _pt():
     import peptacular as pt
